@@ -3,7 +3,7 @@ CONSTANTS
   Budget = 4
   Enabled = {"Name", "Attribute", "Call", "Subscript", "Tuple", "Expr", "Assign", "AnnAssign", "AugAssign", "Lambda", "TypeAlias", "Module"}
   NameSet = {"a", "match", "case", "type"}
-  ExtraParens = FALSE
+  ExtraParens = TRUE
   Emit = TRUE
 SPECIFICATION Spec
 INVARIANTS EmitOK
